@@ -31,6 +31,9 @@ What `C02.WorkflowWF` demands of the workflow – and so what the theorem leaves
    them means replacing `wkey` / `rkeyOf` / `qTag` / `srcKey` by a pairing parametrised by the workflow (or by
    structured keys) throughout `Model/Flow.lean`, the driver and the arithmetic (`omega`) of
    Proofs/FlowInv*, FlowG*, FlowM*, FlowN* – not done.
+`C02.flow_answers_eq_ref_bounds` states the theorem with the bounds as a hypothesis of their own – `C02.EncodingBounds
+kinds`, decidable, on the node kinds alone – next to the bound-free well-formedness `C02.LinksWF`
+(`C02.workflowWF_iff`).
 Not a restriction: schedules. What the model's `Rel` can express beyond the Go signatures (a one-to-one or
 many-to-one action "returning several packets") is covered too – `Node.program` treats every list that is not `[q]`
 as an empty result.
@@ -125,3 +128,53 @@ theorem C02.flow_all_instance :
   rcases this with e | ⟨k, e⟩
   · simp [C02.joinKinds] at e
   · simp [C02.joinKinds] at e
+
+/-! ### the encoding bounds as a separate, decidable hypothesis -/
+
+instance C02.decKindOK (k : Kind) : Decidable (Uniflow.FlowN.KindOK k) := by
+  cases k with
+  | oneToOne => exact isTrue trivial
+  | oneToMany n => exact inferInstanceAs (Decidable (n + 1 < Uniflow.Flow.maxW))
+  | manyToOne n => exact inferInstanceAs (Decidable (n ≤ 63))
+
+/-- **the encoding bounds of `Uniflow.Flow`**, as a decidable hypothesis on the node kinds alone: at most 1000 nodes,
+at most 62 out ports per one-to-many node, at most 63 in-ports per many-to-one node -/
+def C02.EncodingBounds (kinds : List Kind) : Prop :=
+  kinds.length ≤ 1000 ∧ ∀ k ∈ kinds, Uniflow.FlowN.KindOK k
+
+instance C02.decEncodingBounds (kinds : List Kind) : Decidable (C02.EncodingBounds kinds) :=
+  inferInstanceAs (Decidable (_ ∧ _))
+
+/-- the well-formedness every real workflow has, free of numeric bounds: links go forward into existing in-ports,
+no in-port twice on one out port, the source linked, links stored under writer keys of existing nodes -/
+structure C02.LinksWF (kinds : List Kind) (links : List (Nat × List Uniflow.Flow.Tgt)) : Prop where
+  nodupT : ∀ key, ((Uniflow.Tracer.getL links key).map Uniflow.Flow.rkeyOf).Nodup
+  tnode : ∀ key m port, Uniflow.Flow.Tgt.node m port ∈ Uniflow.Tracer.getL links key →
+    ∃ k, kinds[m]? = some k ∧ port < nIn k
+  src : Uniflow.Tracer.getL links Uniflow.Flow.srcKey ≠ []
+  keys : ∀ key, Uniflow.Tracer.getL links key ≠ [] → key = Uniflow.Flow.srcKey ∨
+    ∃ n w, n < kinds.length ∧ w < Uniflow.Flow.maxW ∧ key = Uniflow.Flow.wkey n w
+  fwd : ∀ n w m port, n < kinds.length → w < Uniflow.Flow.maxW →
+    Uniflow.Flow.Tgt.node m port ∈ Uniflow.Tracer.getL links (Uniflow.Flow.wkey n w) → n < m
+
+theorem C02.workflowWF_iff (kinds : List Kind) (links : List (Nat × List Uniflow.Flow.Tgt)) :
+    C02.WorkflowWF kinds links ↔ C02.EncodingBounds kinds ∧ C02.LinksWF kinds links :=
+  ⟨fun h => ⟨⟨h.small, h.kindsOK⟩, ⟨h.nodupT, h.tnode, h.src, h.keys, h.fwd⟩⟩,
+   fun h => ⟨h.1.1, h.1.2, h.2.nodupT, h.2.tnode, h.2.src, h.2.keys, h.2.fwd⟩⟩
+
+open Uniflow.Flow in
+/-- **`C02.flow_answers_eq_ref_all` with the encoding bounds as a separate, decidable hypothesis** -/
+theorem C02.flow_answers_eq_ref_bounds :
+    ∀ (kinds : List Kind) (links : List (Nat × List Tgt)) (es : List Ext),
+    C02.EncodingBounds kinds → C02.LinksWF kinds links →
+    let g := runExt (initG kinds links) es
+    (∀ (i : Nat) (a : Ans), g.resp[i]? = some a → ∃ p, g.roots[i]? = some p ∧ ∃ f, refAns g.log f p = some a) ∧
+    (quiescent g = true → refAnswers g = some g.resp) :=
+  fun kinds links es hb hl => C02.flow_answers_eq_ref_all kinds links es ((C02.workflowWF_iff kinds links).mpr ⟨hb, hl⟩)
+
+/-- the workflows of the instances meet the bounds – by evaluation -/
+theorem C02.encoding_bounds_instances :
+    C02.EncodingBounds C02.joinKinds ∧ C02.EncodingBounds Uniflow.FlowH.forkKinds ∧
+    C02.EncodingBounds [.oneToMany 62, .manyToOne 63] ∧ ¬ C02.EncodingBounds [.oneToMany 63] ∧
+    ¬ C02.EncodingBounds [.manyToOne 64] := by
+  refine ⟨by decide, by decide, by decide, by decide, by decide⟩
